@@ -228,8 +228,12 @@ func (v *LV) Build(r *Rng) any {
 		out := make([]any, len(v.A), len(v.A)+spare)
 		if v.R == "alias" && r == nil && len(v.A) > 0 {
 			shared := v.A[0].Build(nil)
-			for i := range v.A {
-				out[i] = shared // aliasing is not part of the value: equal bindings, same rendering
+			for i, x := range v.A {
+				if x == v.A[0] {
+					out[i] = shared // aliasing is not part of the value: equal bindings, same rendering
+				} else {
+					out[i] = x.Build(nil)
+				}
 			}
 			return out
 		}
